@@ -21,7 +21,7 @@ func init() { register(c10{}) }
 
 func (c10) ID() string { return "C10" }
 func (c10) Rule() string {
-	return "insert;delete and embed;delete: every location of gen.Universe(L<=5|6,arity<=3) as the single labelled host feature x every index x guest length {1,3}, plus seeded hosts (L<=60, <=8 features, BasicSequence and seqio.GenBank, guests with features): Delete(Insert|Embed(h,i,g),i,len g) must restore the residues and give every host feature the same base atoms and open-end markers as originally, and (for features whose parts are sorted, disjoint and non-abutting) the same number of contiguous range parts (the split re-merged; ambiguous spans split into an order are don't-care structurally). cut;concat: all cut sets of 0..4 distinct cut points in [0,L] (0 and L give an empty end piece) (exhaustive for L<=6|7 with Universe(L,2), seeded for L<=60): Concat of the Slice pieces restores the residues and, per labelled feature, the union of the fragments' residues (with strand) equals the original's. non-trivial: the edit touches a feature; distinct: canonical case text. Hosts may list the same annotation twice (both copies come back; every fragment of a cut comes twice); guests may be CONTIG-only records. cut;concat also on hosts whose feature table is listed in reverse (not in location order)."
+	return "insert;delete and embed;delete: every location of gen.Universe(L<=5|6,arity<=3) as the single labelled host feature x every index x guest length {1,3}, plus seeded hosts (L<=60, <=8 features, BasicSequence and seqio.GenBank, guests with features): Delete(Insert|Embed(h,i,g),i,len g) must restore the residues and give every host feature the same base atoms and open-end markers as originally, and (for features whose parts are sorted, disjoint and non-abutting) the same number of contiguous range parts (the split re-merged; ambiguous spans split into an order are don't-care structurally). cut;concat: all cut sets of 0..4 distinct cut points in [0,L] (0 and L give an empty end piece) (exhaustive for L<=6|7 with Universe(L,2), seeded for L<=60): Concat of the Slice pieces restores the residues and, per labelled feature, the union of the fragments' residues (with strand) equals the original's. non-trivial: the edit touches a feature; distinct: canonical case text. Hosts may list the same annotation twice (both copies come back; every fragment of a cut comes twice); guests may be CONTIG-only records. cut;concat also on hosts whose feature table is listed in reverse (not in location order). An unrelated Delete runs after the undos, before the restored residues are compared."
 }
 func (c10) RequiredBuckets(tier string) []string {
 	out := []string{"undo:Insert", "undo:Embed", "undo:split-remerged", "undo:ambiguous-dontcare", "cut:0", "cut:1", "cut:2", "cut:3", "cut:4", "cut:feature-fragmented", "host:genbank", "host:basic", "undo:guest:contig-only-record", "undo:host-feature-listed-twice", "cut:host-feature-listed-twice", "cut:table-not-in-location-order"}
@@ -101,6 +101,9 @@ func (m c10) undo(c *fw.Ctx, kind string, tab []gts.Feature, hostB []byte, gtab 
 			mid3 = gts.Embed(host, i, guest)
 		}
 		res3 = gts.Delete(mid3, i, len(guestB))
+		// (an unrelated deletion afterwards: the restored sequences above are
+		// values of their own.)
+		gts.Delete(gts.New(nil, nil, bytes.Repeat([]byte("z"), len(hostB)+len(guestB)+1)), 0, 1)
 	})
 	if p {
 		c.ViolateX("undo:"+panicClass(site, val), enc, "no panic", fmt.Sprint(val), stack, nil)
